@@ -60,6 +60,16 @@ pub fn kxq_of(regs: &[u8]) -> (f64, f64) {
 
 /// The C02 oracle on one dumped state against the reference coupon set.
 /// Returns (violation key, description) pairs.
+pub fn expected_mode(lg_k: u8, distinct_coupons: usize) -> u8 {
+    if distinct_coupons < 8 {
+        0
+    } else if lg_k < 8 || distinct_coupons > 3 * (1usize << (lg_k - 3)) / 4 {
+        2
+    } else {
+        1
+    }
+}
+
 pub fn check_state(st: &VerifHllState, r: &RefHll, lg_k: u8) -> Vec<(String, String)> {
     check_state_with(st, r, &r.registers(lg_k), lg_k)
 }
@@ -219,7 +229,7 @@ impl Trio {
 
     /// Full oracle on the current state (used periodically after `offer_light`).
     pub fn check_full(&self) -> Vec<(String, String)> {
-        let mut out = vec![];
+        let mut out = self.check_mode();
         for s in &self.s {
             out.extend(check_state_with(&s.verif_state(), &self.r, &self.want, self.lg_k));
             out.extend(check_bounds(s));
@@ -291,6 +301,24 @@ impl Trio {
         }
         if after[0].mode != after[1].mode || after[1].mode != after[2].mode {
             out.push(("hll.types_mode_disagree".into(), "the three types are in different modes after the same stream".into()));
+        }
+        out.extend(self.check_mode());
+        out
+    }
+
+    /// A sketch fed from empty is in the mode the textbook model prescribes for its number of
+    /// distinct coupons: list below 8, then (lg_k >= 8) a set up to 3/4 of 2^(lg_k-3), then the
+    /// register array. (The estimator, and so every estimate and bound, depends on the mode.)
+    pub fn check_mode(&self) -> Vec<(String, String)> {
+        let n = self.r.coupons.len();
+        let want = expected_mode(self.lg_k, n);
+        let mut out = vec![];
+        for s in &self.s {
+            let st = s.verif_state();
+            if st.mode != want {
+                out.push(("hll.mode".into(), format!("Hll{} lg_k={} with {n} distinct coupons is in mode {} (0 list, 1 set, 2 array); the model prescribes {want}", st.tgt, self.lg_k, st.mode)));
+                break;
+            }
         }
         out
     }
